@@ -64,6 +64,8 @@ pub enum Stmt {
     Create { two: bool, init: usize, v: u8, vmax: u64, s: u8, d: u8 },
     /// SELFDESTRUCT(table[r[a] mod t])
     SelfDestruct(u8),
+    /// SELFDESTRUCT(address(r[a]))
+    SelfDestructRaw(u8),
     /// if r[a] == 0 skip the next n statements
     IfZeroSkip(u8, u8),
     /// if r[a] != 0 skip the next n statements
@@ -266,6 +268,10 @@ impl Gen<'_> {
             }
             Stmt::SelfDestruct(x) => {
                 self.ld_addr(x);
+                self.a.op(op::SELFDESTRUCT);
+            }
+            Stmt::SelfDestructRaw(x) => {
+                self.ld(x);
                 self.a.op(op::SELFDESTRUCT);
             }
             Stmt::IfZeroSkip(x, n) => {
@@ -592,8 +598,19 @@ pub fn gen_stmts(r: &mut Rng, m: &Mix, spec: SpecId, n_inits: usize) -> Vec<Stmt
     for i in 0..n {
         let s = gen_stmt(r, m, spec, n_inits, n - i);
         if matches!(s, Stmt::SelfDestruct(_)) {
-            // data-dependent: only when a calldata-derived register is 0 mod k
-            out.push(Stmt::ModK(7, lreg(r), r.range(2, 5)));
+            if r.chance(1, 2) {
+                // state-dependent: destroy only when a hot slot is 0 mod k, so a re-execution on
+                // fresh state can flip between "writes slots" and "destroys"
+                out.push(Stmt::SLoad(7, lreg(r), m.slots));
+                out.push(Stmt::ModK(7, 7, r.range(2, 3)));
+            } else {
+                // calldata-dependent
+                out.push(Stmt::ModK(7, lreg(r), r.range(2, 5)));
+            }
+            out.push(Stmt::IfNonZeroSkip(7, 1));
+        } else if matches!(s, Stmt::Create { .. }) && r.chance(1, 3) {
+            out.push(Stmt::SLoad(7, lreg(r), m.slots));
+            out.push(Stmt::ModK(7, 7, 2));
             out.push(Stmt::IfNonZeroSkip(7, 1));
         }
         out.push(s);
